@@ -44,6 +44,7 @@ def dyn_family(V, rng, tier):
     fam.append(((1, 0, 0), (2, 4, 4 * V), (1, 2, 2 * V)))
     fam.append(((2, 0, 1), (3, 4, 3), (3, 2, 1)))
     fam.append(((0, 0, 1, 0), (2, 3, 2, V + 2), (2, 2, 1, V)))
+    fam.append(((1, 2), (3, V + 1), (1, V + 1)))                                    # A(i, all)
     if tier == "thorough":
         fam.append(((0, 0, 1, 0, 0), (2, 2, 2, 3, V + 2), (1, 2, 1, 2, V)))       # rank 5
         fam.append(((0, 2, 0, 1, 0), (2, 2, 3, 2, 2 * V + 1), (2, 2, 2, 1, V + 1)))
@@ -59,7 +60,7 @@ def dyn_family(V, rng, tier):
 
 # quick tier: the classes every group runs, and the ones that rotate over the groups / seeds (indices into the families)
 DYN_ALWAYS = [0, 1, 4, 6, 7, 8, 9, 11, 14, 15, 16, 18]
-DYN_ROTATE = [[2, 3], [5, 10, 12, 13], [17, 19]]
+DYN_ROTATE = [[2, 3], [5, 10, 12, 13], [17, 19, 20]]
 FIX_ALWAYS = [0, 4, 7, 8, 9]
 FIX_ROTATE = [[1, 2], [3, 5, 6, 10]]
 
